@@ -30,6 +30,9 @@ STRNAMED = "IMFW"     # operands that carry (a proxy: stand for) a *string* __na
 SEEDS = ["0", "1", "4242"]
 
 
+COLLIDE = [(("a.b", "c"), ("b", "c.a")), (("I", "m.n"), ("n.I", "m")), (("x.y.z", "p"), ("z", "p.x.y"))]
+
+
 def enc(s):
     return "-" if s == "" else ",".join(str(ord(c)) for c in s)
 
@@ -53,6 +56,7 @@ def gen_script(rnd, tier, cmpx=False):
     keys = []
     anons = []        # (text, module) of the None-named interfaces
     mkeys = []        # (name, module) of the classes whose specifications are operands
+    collide = rnd.randint(1, len(COLLIDE)) if rnd.random() < 0.3 else 0
     for i in range(1, n + 1):
         r = rnd.random()
         if keys and r < 0.3:
@@ -63,6 +67,9 @@ def gen_script(rnd, tier, cmpx=False):
         else:
             k = (rnd.choice(NAMES), rnd.choice(MODS))
         kind = rnd.choice("IIIIIIMMMFPWSB" if i > 2 else "IIIB")
+        if collide and i <= 2:
+            # two different (name, module) pairs whose dotted concatenation module + "." + name is the same string
+            k, kind = COLLIDE[collide - 1][i - 1], "I"
         if i == n and len(mkeys) == 1:
             kind = "M"            # every script with a class specification has a second one under the same key (below)
         if anons and kind in "IMF" and rnd.random() < 0.3:
